@@ -17,7 +17,7 @@ EXPLANATION = ('theorems C09_* (coq/props/C09.v) hold for every datetime and cou
                'regenerated from /repo by the translator and proved equal to the model; the correspondence samples the '
                'tokeniser / dispatcher glue that is outside the translated text')
 TRUSTED = ['translator/py2coq.py + gen_dates.py (ym, _ymd, 9 arms of dt_bump)',
-           'modelled, not verified: datetime\'s own calendar (M_cal, validated on every day 1900-2300 in C04), the period regex tokeniser (mirrored in harness/props/c09.py)']
+           'modelled, not verified: datetime\'s own calendar (M_cal, validated on every day 1900-2300 in C04); the period regex tokeniser is modelled in Coq (M_tenor) and tied by correspondence (the harness passes the tenor STRING)']
 ASSUMPTIONS = ['all counts are Python ints', 'datetimes within years 1..9999']
 EXHAUSTIVE = {'quick': False, 'thorough': False}
 CASE_TIMEOUT = 5
@@ -66,16 +66,23 @@ def calls_of(case):
 # ---------------- Coq side
 def coq_runner(case):
     return 'run_bumps'
-COQ_PRELUDE = '''Definition run_bumps (l : list (Z * list (Z * unit_))) : J :=
-  let a := map run_dt_bump l in let b := map run_gen_dt_bump l in
+COQ_PRELUDE = '''Definition run_bumps (l : list (Z * bspec)) : J :=
+  let a := map run_bspec l in let b := map run_gen_bspec l in
   if J_eqb (JL a) (JL b) then JL a else JL [JS "GEN<>MODEL"; JL a; JL b].
 '''
 UNIT = dict(d='UD', w='UW', m='UM', q='UQ', y='UY', h='UH', n='UN', s='US', b='UB')
+def coq_spec(b, api):
+    """tenor strings go to the Coq model AS STRINGS (its tokeniser is part of the model); the spellings that
+    pass the parts separately, and ints / timedeltas, go as token lists"""
+    if 'str' in b and api in (None, 'dt_bump', 'dt', 'upper'):
+        s = b['str'].upper() if api == 'upper' else b['str']
+        return '(BS "%s")' % s
+    return '(BT [' + '; '.join('((%d), %s)' % (n, UNIT[u]) for n, u in bump_tokens(b)) + '])'
+
 def coq_case(case):
     items = []
     for t, b in calls_of(case):
-        toks = '[' + '; '.join('((%d), %s)' % (n, UNIT[u]) for n, u in bump_tokens(b)) + ']'
-        items.append('((%d), %s)' % (t, toks))
+        items.append('((%d), %s)' % (t, coq_spec(b, case.get('api') if case['kind'] == 'bump' else None)))
     return '[' + '; '.join(items) + ']'
 
 # ---------------- implementation side + oracle
